@@ -626,3 +626,47 @@ fn c42_ctl() {
     assert!(ch::steered_clock_count(&ctl) == 1, "steered clock list unchanged");
     kani::cover!(opk == 1 && !ok && ida == sys, "remove_external_clock on the system clock fails");
 }
+
+// ---------------------------------------------------------------- native scenario test (lead)
+// c42_ops_b's counterexamples come with large traces (kani-driver can run out of memory producing
+// the playback test). This ordinary test drives the REAL estimator with one concrete instance of
+// the same scenario (a link in front of clocks is removed); the driver runs it natively when the
+// harness fails and reports a violation only if it fails on the real code.
+#[cfg(test)]
+mod native {
+    use super::*;
+
+    #[test]
+    fn native_remove_link_keeps_later_clocks() {
+        // script 3 of the harness: x0 x1 L, x0 removed, c0 added  =>  rows L(0) c0(1,2)
+        let e = Est::empty(Timestamp::UNIX_EPOCH);
+        let e = e.add_external_clock(cid(0)).expect("add external clock 0");
+        let e = e.add_external_clock(cid(1)).expect("add external clock 1");
+        let e = e
+            .add_link(lid(0), eh::UncertainValueT { value: 0.125, uncertainty: 0.5 }, 0.5)
+            .expect("add link");
+        let e = e.remove_external_clock(cid(0)).expect("remove external clock 0");
+        let mut e = e
+            .add_clock(
+                cid(0),
+                eh::UncertainValueT { value: 3.0, uncertainty: 0.25 },
+                eh::UncertainValueT { value: 7.0e-6, uncertainty: 0.5e-6 },
+                1e-8,
+            )
+            .expect("add clock after the link");
+        let r_off = eh::est_clock_row(&e, cid(0)).expect("clock row");
+        let r_frq = eh::est_clock_freq_row(&e, cid(0)).expect("clock frequency row");
+        eh::est_state_set(&mut e, r_off, 3.0);
+        eh::est_state_set(&mut e, r_frq, 7.0e-6);
+        let off0 = eh::est_state_get(&e, r_off).to_bits();
+        let frq0 = eh::est_state_get(&e, r_frq).to_bits();
+        let var0 = eh::est_cov_get(&e, r_off, r_off).to_bits();
+        let e = e.remove_link(lid(0)).expect("remove the link in front of the clock");
+        let r_off2 = eh::est_clock_row(&e, cid(0)).expect("clock still known");
+        let r_frq2 = eh::est_clock_freq_row(&e, cid(0)).expect("clock still known");
+        assert!(r_off2 < eh::est_rows(&e) && r_frq2 < eh::est_rows(&e), "element row inside the state vector");
+        assert!(eh::est_state_get(&e, r_off2).to_bits() == off0, "offset estimate of the unrelated clock is unchanged");
+        assert!(eh::est_state_get(&e, r_frq2).to_bits() == frq0, "frequency estimate of the unrelated clock is unchanged");
+        assert!(eh::est_cov_get(&e, r_off2, r_off2).to_bits() == var0, "uncertainty of the unrelated clock is unchanged");
+    }
+}
